@@ -51,16 +51,27 @@ var alsoRuns = map[string][]borrow{
 		// entry ended must leave the table there as well (C17.Y4), else the snapshot holds sessions no replica has
 		{prop: "C17", rules: []string{"Y4"}, keyHas: "MaybeDeleteSession(msg.Session) after ProcessMessage"}},
 	// … and hands back usable objects: every map a handler assigns into is non-nil after a load (C06.G5)
-	"C03": {{prop: "C13", rules: []string{"E6"}, keyHas: "ending another session"}, {prop: "C14", rules: []string{"M6"}}, {prop: "C02", rules: []string{"N1"}, keyHas: "live global"}, {prop: "C06", rules: []string{"G5"}}},
+	"C03": {{prop: "C13", rules: []string{"E6"}, keyHas: "ending another session"}, {prop: "C14", rules: []string{"M6"}}, {prop: "C02", rules: []string{"N1"}, keyHas: "live global"}, {prop: "C06", rules: []string{"G5"}},
+		// the state that is serialized is folded from decoded log entries: an entry that does not decode is fatal, not an empty message (which reads as a CreateSession)
+		{prop: "C18", rules: []string{"F6"}, funcPrefix: "robust.NewMessageFromBytes"},
+		// the serialized state reaches a fresh instance through the snapshot stream: a record is written to the sink once (C02.N7b)
+		{prop: "C02", rules: []string{"N7"}, keyHas: "is not repeated"}},
 	// acknowledged entries survive snapshots (C02, C03), the store honours its contract (C09 + its entry codec), and
 	// "delivers exactly once" includes the resume protocol (C04)
 	// the resume protocol relies on Get/GetNext honouring their contract (C08); a message's reply number is its position in
 	// the batch (C01.R4); nodes that restored from a snapshot file the same outputs under the same ids (C18.F1 default id, C02.N4)
 	// "… to different nodes holding the same log": what a node delivers for an entry must not depend on the node (C01: map
 	// order, clocks, ambient state, id derivation)
-	"C04": {{prop: "C01", rules: []string{"R1", "R2", "R3", "R4"}}, {prop: "C08"}, {prop: "C01", rules: []string{"R4"}}, {prop: "C18", rules: []string{"F1"}, keyHas: "default id"}, {prop: "C02", rules: []string{"N4"}}},
+	"C04": {{prop: "C01", rules: []string{"R1", "R2", "R3", "R4"}}, {prop: "C08"}, {prop: "C01", rules: []string{"R4"}}, {prop: "C18", rules: []string{"F1"}, keyHas: "default id"}, {prop: "C02", rules: []string{"N4"}},
+		// a resuming client that is told 404 for a session the node merely has not seen yet gives the session up together with
+		// everything it has not fetched: the two look-up errors must reach the comparison unwrapped (C17.Y2)
+		{prop: "C17", rules: []string{"Y2"}, keyHas: "arrives unwrapped"},
+		// a node that cannot write an entry's output stops; it does not go on serving a stream with a hole (C02.N9, fail-stop)
+		{prop: "C02", rules: []string{"N9"}, keyHas: "sendMessages"}},
 	// … and a POST is acknowledged without being proposed only where the replicated marker shows it was applied (C10.U1c)
 	"C05": {{prop: "C02"}, {prop: "C03"}, {prop: "C09"}, {prop: "C18"}, {prop: "C04"}, {prop: "C08"}, {prop: "C14", rules: []string{"M6"}},
+		// "exactly once": every applied client line records its id as the duplicate marker, a keep-alive included
+		{prop: "C10", rules: []string{"U3"}, keyHas: "success return passes the marker write"},
 		{prop: "C10", rules: []string{"U1"}, keyHasAny: []string{"success without proposing", "proposal carries the tested ClientMessageId"}},
 		// "exactly once": the retry of a POST whose acknowledgement was lost is recognised only if the proposal carries the
 		// id the duplicate test compared. "after killing and restarting any node": a node must come up again — the entry
@@ -72,7 +83,12 @@ var alsoRuns = map[string][]borrow{
 	// … and sessions ended by somebody else leave the session table (C17.Y4), else their next line finds no nickname entry
 	// … and a session that ProcessMessage itself has just ended (ban, registration time-out) does not get its command run
 	// (C17.Y6): the handlers assume a session that is in the nickname index and in its channels' member lists
-	"C06": {{prop: "C14"}, {prop: "C17", rules: []string{"Y4"}}, {prop: "C17", rules: []string{"Y6"}, keyHas: "not dispatched"}},
+	"C06": {{prop: "C14"}, {prop: "C17", rules: []string{"Y4"}}, {prop: "C17", rules: []string{"Y6"}, keyHas: "not dispatched"},
+		// a failed Add stops the node that applies the entry — every node: Add must not fail for what a client can send (C08.S10)
+		{prop: "C08", rules: []string{"S10"}, keyHas: "fails only when"},
+		// applyRobustMessage takes UpdateLastClientMessageID's nil for "the session exists" before it calls ProcessMessage,
+		// which dereferences the session: a nil that did not pass the write to the found session is not that proof (C10.U3)
+		{prop: "C10", rules: []string{"U3"}, keyHas: "success return passes the marker write"}},
 	// the marked entry lands in a store that honours its contract (C09, F2/F3); the duplicate-detection marker advances for a
 	// skipped entry (C10.U3); every entry, marked or not, is re-filed before it is applied or skipped and is folded by
 	// compaction, and restore rebuilds from it (C02.N1/N3/N4/N5); the marker and everything else survives a snapshot (C03)
@@ -88,7 +104,13 @@ var alsoRuns = map[string][]borrow{
 	// the tombstone written for a message of death keeps the client message id and the same slot; compaction folds it; the
 	// marker is part of the snapshot
 	"C10": {{prop: "C07", rules: []string{"D1", "D2", "D3", "D5"}}, {prop: "C02", rules: []string{"N1"}}, {prop: "C03", keyHas: "lastClientMessageId"},
-		{prop: "C18", rules: []string{"F1", "F2"}, keyHas: "ClientMessageId"}},
+		{prop: "C18", rules: []string{"F1", "F2"}, keyHas: "ClientMessageId"},
+		// one POST is one proposal: the handler reports success / failure as raft did and proposes once (C05.A2)
+		{prop: "C05", rules: []string{"A2", "A5"}, funcPrefix: "api.(*HTTP).applyMessageWait"},
+		// the marker is rebuilt by replaying the log: every record of a snapshot is applied (a skipped message of death still
+		// advances it: C02.N5b), and an entry decoded from stored JSON still carries its ClientMessageId (C18.F7b)
+		{prop: "C02", rules: []string{"N5"}, keyHas: "every record that is not the state record"},
+		{prop: "C18", rules: []string{"F7"}, keyHas: "ClientMessageId"}},
 	// instances must not share mutable package-level state: a configuration is decoded into a fresh value (C16.V3)
 	// … and an instance that raft created from a snapshot and then fed the remaining entries is one of the instances the
 	// property quantifies over: whatever influences later output must be in the snapshot and come back unchanged (C03)
@@ -97,19 +119,27 @@ var alsoRuns = map[string][]borrow{
 	"C01": {{prop: "C16", rules: []string{"V3"}, keyHas: "fresh configuration value"}, {prop: "C03"}, {prop: "C14", rules: []string{"M4"}}},
 	// ended sessions must leave the session table, otherwise their secret keeps working
 	// … and the secret survives a snapshot unchanged (C03 obligations about the auth field)
-	"C11": {{prop: "C13", rules: []string{"E6"}, keyHas: "ending another session"}, {prop: "C17", rules: []string{"Y1", "Y2", "Y3", "Y4"}}, {prop: "C03", keyHasAny: []string{".auth", ".Auth"}}},
+	"C11": {{prop: "C13", rules: []string{"E6"}, keyHas: "ending another session"}, {prop: "C17", rules: []string{"Y1", "Y2", "Y3", "Y4"}}, {prop: "C03", keyHasAny: []string{".auth", ".Auth"}},
+		// a node that installs a snapshot starts from a fresh server: a session deleted in the part of the log it never saw must not keep its secret
+		{prop: "C02", rules: []string{"N4"}, keyHas: "fresh IRC server"}},
 	// recipient sets are computed from the membership relations whose pairing C14 checks
 	// … and from the nickname index, which a restore must rebuild for every session with a nickname (C03.K4)
 	// … and nothing but the closing line reaches a session after it ended (C17.Y5)
 	// … and no client can inject a second line with a prefix of its choosing (C15.W2)
 	// … and the identity and membership data survive a snapshot (C03 obligations about those fields)
 	"C12": {{prop: "C13", rules: []string{"E6"}, keyHas: "ending another session"}, {prop: "C17", rules: []string{"Y4"}}, {prop: "C14"}, {prop: "C03", rules: []string{"K4"}}, {prop: "C17", rules: []string{"Y5"}}, {prop: "C15", rules: []string{"W2"}},
-		{prop: "C03", keyHasAny: []string{"Session.Nick", "Session.Username", "Session.Realname", "ircPrefix", "IrcPrefix", "Session.Channels", "channel.nicks", "Channel.Nicks", "Session.modes", "Session.AwayMsg", "identifier literal"}}},
+		{prop: "C03", keyHasAny: []string{"Session.Nick", "Session.Username", "Session.Realname", "ircPrefix", "IrcPrefix", "Session.Channels", "channel.nicks", "Channel.Nicks", "Session.modes", "Session.AwayMsg", "identifier literal"}},
+		// who is on a channel after a restore is what the replayed entries say: replaying does not stop at an entry that was
+		// refused when it was first applied (C02.N5b)
+		{prop: "C02", rules: []string{"N5"}, keyHas: "result of replaying"}},
 	// operator status lives in per-member arrays: a restore that shares one array between members hands out operator status
 	// … and privileges must survive a snapshot: operator flag, channel settings, member status, invitations, services links
 	"C13": {{prop: "C14", rules: []string{"M1"}, keyHas: "fresh status array"},
 		{prop: "C03", keyHasAny: []string{".Operator", ".Server", ".modes", ".Modes", ".bans", ".Bans", ".key", ".Key", ".invitedTo", ".InvitedTo", "channel.nicks", ".Nicks", ".Pass", "SolvedCaptcha", "BanPattern", "banPattern"}},
-		{prop: "C14", rules: []string{"M6"}}, {prop: "C14", rules: []string{"M1"}, keyHas: "invitations"}},
+		{prop: "C14", rules: []string{"M6"}}, {prop: "C14", rules: []string{"M1"}, keyHas: "invitations"},
+		// "a configured name/password": revoking a credential takes effect only if the update the API accepted is applied by
+		// every replica — the parser must not be stricter than the API's check (C16.V1b)
+		{prop: "C16", rules: []string{"V1"}, keyHas: "fails only when"}},
 	// ended sessions leave every relation and the session table (C17.Y4)
 	// … and a restore rebuilds the derived indexes consistently (C03.K4/K4b)
 	"C14": {{prop: "C17", rules: []string{"Y4"}}, {prop: "C03", rules: []string{"K4"}}, {prop: "C03", keyHasAny: []string{"identifier literal"}},
@@ -119,7 +149,11 @@ var alsoRuns = map[string][]borrow{
 	// GLINE kills the replica that restored and the others keep the ban
 	// … and a Config entry keeps its revision in every log encoding (C18.F1/F2 about Revision)
 	// … and a GLINE that is refused (481) changes nothing: the ban table is written only behind the operator test (C13.E6)
-	"C16": {{prop: "C13", rules: []string{"E6"}, keyHas: "Config.Banned"}, {prop: "C03", keyHas: "onfig"}, {prop: "C06", rules: []string{"G5"}, keyHas: "Banned"}, {prop: "C18", rules: []string{"F1", "F2"}, keyHas: "Revision"}},
+	"C16": {{prop: "C13", rules: []string{"E6"}, keyHas: "Config.Banned"}, {prop: "C03", keyHas: "onfig"}, {prop: "C06", rules: []string{"G5"}, keyHas: "Banned"}, {prop: "C18", rules: []string{"F1", "F2"}, keyHas: "Revision"},
+		// a replica that cannot store a committed Config entry stops (and replays it after the restart); it does not count it as applied and keep the old configuration
+		{prop: "C02", rules: []string{"N3"}, keyHas: "store error is fatal"},
+		// "a rejected update changes nothing": the handler reports failure only when the proposal did fail (C05.A2, A5)
+		{prop: "C05", rules: []string{"A2", "A5"}, funcPrefix: "api.(*HTTP).applyMessageWait"}},
 	// a relayed line starts with a well-formed prefix: the cached prefix is refreshed whenever the nickname changes (C12.T4)
 	"C15": {{prop: "C12", rules: []string{"T4"}}, {prop: "C03", keyHasAny: []string{"ircPrefix", "IrcPrefix"}}},
 	// sessions (and the expiration they are measured against) survive a snapshot: every session is restored (C03.K7), ids keep
@@ -128,13 +162,24 @@ var alsoRuns = map[string][]borrow{
 	// reads (C02.N5)
 	// the raft log store is a writer/reader pair too: what StoreLogs / StoreLogProto write (every entry handed over, under
 	// its own index key, as 'p' + protobuf or bare JSON: C09.L1, L2, L7) is what GetLog and the bulk iterator read back
-	"C18": {{prop: "C02", rules: []string{"N5"}}, {prop: "C09", rules: []string{"L1", "L2", "L7"}, funcPrefix: "raftstore.(*LevelDBStore).Store"}},
+	"C18": {{prop: "C02", rules: []string{"N5"}}, {prop: "C09", rules: []string{"L1", "L2", "L7"}, funcPrefix: "raftstore.(*LevelDBStore).Store"},
+		// the batch codec stores the keys of the recipient set: the set holds no false entries
+		{prop: "C12", rules: []string{"T1"}, keyHas: "marks recipients with true"},
+		// "the id defaults to the raft index only when absent": a proposal object is not re-used (C05.A7b)
+		{prop: "C05", rules: []string{"A7"}, keyHas: "fresh message"}},
 	// … and a session that somebody else ends is removed from the table only by the sweep, which runs for operators and
 	// services links: ending another session is therefore tied to that privilege (C13.E6), else the ended session lingers
-	"C17": {{prop: "C03", rules: []string{"K7"}}, {prop: "C03", keyHasAny: []string{"SessionExpiration", "LastActivity", "identifier literal"}},
+	"C17": {{prop: "C03", rules: []string{"K7"}}, {prop: "C03", keyHasAny: []string{"SessionExpiration", "LastActivity", "identifier literal", "encodes the time it was given"}},
+		// the expiry sweep compares the replicated last activity: the field is written by the step only, not by whatever node happens to receive a POST
+		{prop: "C01", rules: []string{"R3"}, keyHas: "LastActivity"},
+		// the sweep runs with the configured expiration only if the configuration the API accepted is applied (C16.V1b)
+		{prop: "C16", rules: []string{"V1"}, keyHas: "fails only when"},
 		{prop: "C13", rules: []string{"E6"}, keyHas: "ending another session"},
 		// … and a live session is never answered "No such session": the gates hand on the IRC server's verdict (C11.H1e)
 		{prop: "C11", rules: []string{"H1"}, keyHas: "does not decide by itself"}},
+	// a configuration value that shares a map with a package-level default is shared by every server that parsed one: the
+	// live server and the temporary one Snapshot folds into write it under different locks (C16.V3)
+	"C20": {{prop: "C16", rules: []string{"V3"}, keyHas: "fresh configuration value"}},
 }
 
 // Rule set registry: property id -> function.
